@@ -27,8 +27,11 @@ def add_noise(rng, w, lookalike=False):
             if lookalike and rng.random() < 0.5:
                 tok = rng.choice(LOOKALIKES)
             t.setdefault('body', [])
-            t['body'] = [{'a': 'write', 'tok': tok, 'stream': stream,
-                          'via': via, 'nl': rng.random() < 0.85}] + list(t['body'])
+            wr = {'a': 'write', 'tok': tok, 'stream': stream,
+                  'via': via, 'nl': rng.random() < 0.85}
+            if via == 'fd' and rng.random() < 0.4:
+                wr['rawhex'] = rng.choice(['fffe', '80', 'c3'])     # bytes that are not UTF-8
+            t['body'] = [wr] + list(t['body'])
     if rng.random() < 0.4:
         # ... and when the interpreter of a layer subprocess shuts down,
         # i.e. after its report
@@ -58,6 +61,14 @@ def force_children(rng, w, o):
 def trouble(rng, w, o, kind):
     """scripted trouble outside the tests' own outcomes"""
     if kind == 'import':
+        # ... also when the level options select none of the module's tests
+        r = rng.random()
+        if r < 0.25:
+            o['only_level'] = rng.choice([0, 2, 3])
+        elif r < 0.4:
+            o['at_level'] = rng.choice([2, 3])
+        elif r < 0.5:
+            o['all'] = True
         # the test module cannot be imported (whatever it raises)
         w['import'] = rng.choice([
             'raise', {'raise': 'ValueError'}, {'raise': 'AttributeError'},
